@@ -81,7 +81,7 @@ class C10(HistoryProperty):
         "dictionaries); non-trivial = histories containing both a triple that succeeds and a triple that fails"
     )
     ASSUMPTIONS = ["hashable dispatch values", "defaults lie inside their own declared domain"]
-    QUICK = {"runs": 8000, "wall": 40}
+    QUICK = {"runs": 12000, "wall": 40}
     THOROUGH = {"runs": 300000, "wall": 480}
     NONTRIVIAL_MEASURE = "history_mixed_outcomes"
 
